@@ -269,9 +269,15 @@ class GrammarEval:
             fi0 = self.idx.funcs.get(f'{m}:{st.name}')
             if fi0 is not None and fi0.node is st:
                 # a parse action is read with the small value helpers it calls (functions that reduce to one expression) in place
-                from .inline import inline_fragments
+                from .inline import inline_fragments, inlined_info
                 try:
-                    node = inline_fragments(self.idx, fi0).node
+                    params_ = [a_.arg for a_ in st.args.args]
+                    if len(params_) == 3 or (params_ and params_[-1] in ('tok', 'toks', 'tokens', 't')):
+                        # a parse action: helper procedures it calls (`attach_comment(init_dict, tok)`) are read in place as well
+                        full = inlined_info(self.idx, fi0, depth=2)
+                        node = full.node if getattr(full.node, '_inlined_any', False) else inline_fragments(self.idx, fi0).node
+                    else:
+                        node = inline_fragments(self.idx, fi0).node
                 except RecursionError:      # pragma: no cover
                     node = st
             env[st.name] = FuncRef(Action('func', m, st.name, node))
